@@ -215,9 +215,31 @@ fn shrink(set: Set, fail: Fail, isa: IsaKind) -> (Set, Fail) {
             }
         }
         if !progress || budget <= 0 {
-            return (set, fail);
+            break;
         }
     }
+    (set, fail)
+}
+
+fn canonicalise(set: Set, fail: Fail, isa: IsaKind) -> (Set, Fail) {
+    let (mut set, mut fail) = (set, fail);
+    if !set.dense {
+        // Sparse ids 1..=n: the smallest layout that is not the dense one.
+        let cand = Set { vals: set.vals.clone(), ids: (1..=set.vals.len() as u32).collect(), dense: false };
+        if let Some(g) = fails_same(&cand, &fail, isa) {
+            set = cand;
+            fail = g;
+        }
+    }
+    if fail.seed != 0 && !fail.kind.starts_with("argmax") {
+        let mut f0 = fail.clone();
+        f0.seed = 0;
+        f0.draws = fail.draws.max(256);
+        if let Some(g) = fails_same(&set, &f0, isa) {
+            fail = g;
+        }
+    }
+    (set, fail)
 }
 
 fn report(rep: &mut Report, isas: &[(IsaKind, &'static str)], set: &Set, fail: Fail, isa: IsaKind, origin: &str) {
@@ -231,6 +253,7 @@ fn report(rep: &mut Report, isas: &[(IsaKind, &'static str)], set: &Set, fail: F
     // Fallback-dependent failures need a particular random draw: those are
     // reported as found (shrinking would change the draw sequence).
     let (small, sfail) = if fail.kind == "multinomial_zero_probability_id" && fail.draws > 64 { (set.clone(), fail) } else { shrink(set.clone(), fail, isa) };
+    let (small, sfail) = canonicalise(small, sfail, isa);
     let on: Vec<&str> = isas.iter().filter(|(k, _)| fails_same(&small, &sfail, *k).is_some()).map(|(_, n)| *n).collect();
     let isa_txt = if on.len() == isas.len() { "all".to_string() } else { on.join("+") };
     let sig = if small.vals.len() <= 8 {
@@ -292,7 +315,7 @@ pub fn run(args: &Args) {
         "C33",
         "gencheck c33",
         args,
-        "dense and sparse candidate sets of 1..=200 logits (finite and -inf entries with at least one finite, ties, all-equal, single candidate, spreads up to +-3e38) under every forced instruction set. ArgMax: returned id is a candidate whose score is >= every score. Multinomial: two samplers built with the same seed draw the same ids; every drawn id is a candidate and its logit is not -inf. Plus a seed-independent directed search for the documented 'fall back to index 0' path with a zero-probability first candidate. Non-trivial = at least 2 candidates; distinct by (logits bits, ids)",
+        "dense and sparse candidate sets of 1..=200 logits (finite and -inf entries with at least one finite, ties, all-equal, single candidate, spreads up to +-3e38) under every forced instruction set. ArgMax: returned id is a candidate whose score is >= every score. Multinomial: two samplers built with the same seed draw the same ids; every drawn id is a candidate and its logit is not -inf. Plus a seed-independent directed search (fixed candidate set whose first logit is -inf and whose f32 softmax sums to less than 1, sampler seed 0, up to 1.2e7 / 1e8 draws per instruction set) for the two ways a zero-probability first candidate can be returned: a random target of exactly 0, and the documented 'fall back to index 0' when the target exceeds the rounded cumulative sum. Non-trivial = at least 2 candidates; distinct by (logits bits, ids)",
     );
     let isas = usable_isas(&mut rep);
     if isas.is_empty() {
@@ -347,7 +370,7 @@ pub fn run(args: &Args) {
     }
 
     if args.shard == 0 {
-        directed_fallback(&mut rep, &isas, args.get_u64("directed", 60_000_000) as usize);
+        directed_fallback(&mut rep, &isas, args.get_u64("directed", if args.thorough { 100_000_000 } else { 12_000_000 }) as usize);
     }
 
     rep.finish();
@@ -362,7 +385,11 @@ pub fn run(args: &Args) {
 fn directed_fallback(rep: &mut Report, isas: &[(IsaKind, &'static str)], cap: usize) {
     use rten_simd::SimdOp;
     use rten_vecmath::Softmax;
+    let mut covered: Vec<&str> = Vec::new();
     for (isa, name) in isas {
+        if covered.contains(name) {
+            continue;
+        }
         let mut rng = Rng::new(0xC33D);
         let mut best: Option<(f32, Vec<f32>)> = None;
         for n in [5usize, 6, 8] {
@@ -392,6 +419,13 @@ fn directed_fallback(rep: &mut Report, isas: &[(IsaKind, &'static str)], cap: us
             }
             Err(f) => {
                 rep.add("multinomial_draws", 2 * f.draws as u64);
+                // The same witness under the other instruction sets: no
+                // separate search (and signature) where it fails as well.
+                for (other, other_name) in isas {
+                    if fails_same(&set, &f, *other).is_some() {
+                        covered.push(other_name);
+                    }
+                }
                 report(rep, isas, &set, f, *isa, "directed_fallback");
             }
         }
